@@ -217,9 +217,38 @@ def gen_reads():
             "end Efp.Generated\n")
 
 
+def gen_depends():
+    """(class of an object, class of an object it lists in `modeling_objects_whose_attributes_depend_directly_on_me`),
+    as returned by the real code on the reference systems and on the system that contains every public class"""
+    from harness import realsys
+    deps = set()
+
+    def record(objs):
+        for o in objs:
+            for x in o.modeling_objects_whose_attributes_depend_directly_on_me:
+                deps.add((type(o).__name__, type(getattr(x, "_value", x)).__name__))
+    for spec in reference_specs():
+        try:
+            rs = realsys.RealSystem(spec)
+        except Exception:  # noqa
+            continue
+        record(rs.objs.values())
+    try:
+        from harness import richsys
+        record(richsys.build().values())
+    except Exception as e:  # noqa
+        deps.add(("<builder reference system failed>", type(e).__name__))
+    rows = [f"({lean_str(a)}, {lean_str(b)})" for a, b in sorted(deps)]
+    return ("/- GENERATED from /repo by harness/extract_schema.py — do not edit. -/\n"
+            "namespace Efp.Generated\n\n"
+            "/-- (class, class of an object whose attributes it declares as depending directly on it) -/\n"
+            f"def dependsDirectly : List (String × String) := {lean_list(rows, 1)}\n\n"
+            "end Efp.Generated\n")
+
+
 def regenerate():
     changed = []
-    for fname, gen in [("Units.lean", gen_units), ("Schema.lean", gen_schema), ("Reads.lean", gen_reads)]:
+    for fname, gen in [("Units.lean", gen_units), ("Schema.lean", gen_schema), ("Reads.lean", gen_reads), ("Depends.lean", gen_depends)]:
         if write_if_changed(os.path.join(GEN, fname), gen()):
             changed.append(fname)
     return changed
